@@ -46,13 +46,20 @@ class C07(Check):
     lean_targets = ["drv_c07"]
     driver = "drv_c07"
     theorems = ["Pox.C07.sites_agree", "Pox.C07.sites_anchored", "Pox.C07.calllater_once", "Pox.C07.calllater_order",
-                "Pox.C07.sync_excludes", "Pox.C07.sync_mutual", "Pox.C07.lock_excl", "Pox.C07.lock_handoff",
+                "Pox.C07.sync_excludes", "Pox.C07.sync_mutual", "Pox.C07.schedule_atmost1", "Pox.C07.schedule_wake_kept",
+                "Pox.C07.wake_noticed", "Pox.C07.hub_mode", "Pox.C07.lock_excl", "Pox.C07.lock_handoff",
                 "Pox.C07.lock_excl_needs_discipline"]
-    anchors = [("pox/lib/recoco/recoco.py", 189, 201), ("pox/lib/recoco/recoco.py", 223, 295),
-               ("pox/lib/recoco/recoco.py", 297, 311), ("pox/lib/recoco/recoco.py", 490, 542),
-               ("pox/lib/recoco/recoco.py", 806, 838), ("pox/lib/recoco/recoco.py", 887, 942),
-               ("pox/lib/recoco/recoco.py", 952, 1025), ("pox/lib/recoco/recoco.py", 1084, 1109),
-               ("pox/core.py", 262, 294)]
+    anchors = [("pox/lib/recoco/recoco.py", 196, 201), ("pox/lib/recoco/recoco.py", 233, 233), ("pox/lib/recoco/recoco.py", 247, 248),
+               ("pox/lib/recoco/recoco.py", 272, 279), ("pox/lib/recoco/recoco.py", 286, 290), ("pox/lib/recoco/recoco.py", 303, 306),
+               ("pox/lib/recoco/recoco.py", 310, 311), ("pox/lib/recoco/recoco.py", 315, 319), ("pox/lib/recoco/recoco.py", 328, 331),
+               ("pox/lib/recoco/recoco.py", 336, 344), ("pox/lib/recoco/recoco.py", 350, 352),
+               ("pox/lib/recoco/recoco.py", 474, 474), ("pox/lib/recoco/recoco.py", 487, 487), ("pox/lib/recoco/recoco.py", 503, 504),
+               ("pox/lib/recoco/recoco.py", 519, 530), ("pox/lib/recoco/recoco.py", 533, 542), ("pox/lib/recoco/recoco.py", 561, 561),
+               ("pox/lib/recoco/recoco.py", 813, 820), ("pox/lib/recoco/recoco.py", 826, 829), ("pox/lib/recoco/recoco.py", 832, 838),
+               ("pox/lib/recoco/recoco.py", 886, 908), ("pox/lib/recoco/recoco.py", 911, 914), ("pox/lib/recoco/recoco.py", 924, 927),
+               ("pox/lib/recoco/recoco.py", 931, 936), ("pox/lib/recoco/recoco.py", 942, 942), ("pox/lib/recoco/recoco.py", 954, 955),
+               ("pox/lib/recoco/recoco.py", 980, 989), ("pox/lib/recoco/recoco.py", 994, 1003), ("pox/lib/recoco/recoco.py", 1015, 1025),
+               ("pox/lib/recoco/recoco.py", 1086, 1109), ("pox/core.py", 264, 264), ("pox/core.py", 283, 283), ("pox/core.py", 294, 294)]
     design_ref = "DESIGN.md §5 C07, Appendix B"
     coverage_cases = 10 ** 9          # every case contributes to the anchored-line coverage (managed threads report it)
     search_budget = {"quick": 500, "thorough": 5000}
